@@ -179,6 +179,18 @@ class Disk:
     def cap(self):
         """(unit centre n, angular radius theta): the disk is the spherical cap
         { s : angle(s, n) < theta }."""
+        if self.aff is not None:
+            # exact circle known: same formulas on the unnormalised form
+            # [[|c|^2 - r^2, -conj c], [-c, 1]], but with -det H = r^2 inserted
+            # instead of recomputed (|c|^2 - (|c|^2 - r^2) cancels completely
+            # for a circle that is small compared with its distance from 0:
+            # the cap radius of |z - 1.2| < 1.5e-8 came out 16 % wrong)
+            c, r, bounded = self.aff
+            sg = 1.0 if bounded else -1.0
+            t = 0.5 * (abs(c) ** 2 - r * r + 1.0)
+            m = np.array([-c.real, -c.imag, 0.5 * (1.0 - abs(c) ** 2 + r * r)])
+            n = -sg * m / np.linalg.norm(m)
+            return n, float(np.arctan2(r, sg * t))
         a = float(np.real(self.H[0, 0]))
         d = float(np.real(self.H[1, 1]))
         h01 = complex(self.H[0, 1])
@@ -310,6 +322,20 @@ def relation_margin(c1, r1, c2, r2):
     d = abs(complex(c1) - complex(c2))
     sc = max(1.0, r1, r2, d)
     return min(abs(d - (r1 + r2)), abs(d - abs(r1 - r2))) / sc
+
+
+def relation_gap(c1, r1, c2, r2):
+    """scale-free form of the general-position margin: (gap, scale, noise) with
+    gap = absolute distance of |c1 - c2| from r1 + r2 and from |r1 - r2|,
+    scale = max(r1, r2, |c1 - c2|) (the size of the configuration itself, no
+    absolute unit), noise = eps * (|c1| + r1 + |c2| + r2), the size of one
+    rounding error in the affine coordinates of the circles' points (what a
+    backward-stable computation of centres / radii from stored points can lose
+    for circles that are small compared with their distance from the origin)."""
+    d = abs(complex(c1) - complex(c2))
+    gap = min(abs(d - (r1 + r2)), abs(d - abs(r1 - r2)))
+    noise = 2.220446049250313e-16 * (abs(complex(c1)) + r1 + abs(complex(c2)) + r2)
+    return gap, max(r1, r2, d), noise
 
 
 def contains_truth(c1, r1, b1, c2, r2, b2):
